@@ -790,10 +790,18 @@ impl QueryHashCache {
         // Hash embedding dimension first
         embedding.len().hash(&mut hasher);
 
-        // Quantize floats to 16-bit for stable hashing
-        // This prevents hash drift from floating-point precision differences
+        // Quantize floats to a 1/32768 grid for stable hashing
+        // This prevents hash drift from floating-point precision differences.
+        // The rounded value itself is hashed: an `as i16` cast saturates outside [-1, 1), which made
+        // every out-of-range component (un-normalised Euclidean queries) hash alike, so dissimilar
+        // queries shared one cache key.
         for &val in embedding {
-            let quantized = (val * 32768.0).round() as i16;
+            let scaled = (val * 32768.0).round();
+            let quantized: u32 = if scaled.is_finite() {
+                (scaled + 0.0).to_bits() // `+ 0.0` folds -0.0 into +0.0
+            } else {
+                val.to_bits()
+            };
             quantized.hash(&mut hasher);
         }
 
